@@ -19,6 +19,19 @@ func verifExponentIs(label string, f float64) {
 	verifAssert(label, new(big.Int).Mul(n, want.Denom()).Cmp(new(big.Int).Mul(want.Num(), d)) == 0)
 }
 
+// verifCap: with config "pip33" the amounts are bounded by the property's own
+// range (10^33 pip), which the rounding-aware float mode needs (integers below
+// 2^110 entering 100-bit floats).
+func verifCap(xs ...*big.Int) {
+	if verifConfig("pip33") != 1 {
+		return
+	}
+	max := new(big.Int).Exp(big.NewInt(10), big.NewInt(33), nil)
+	for _, x := range xs {
+		verifAssume(x.Cmp(max) <= 0)
+	}
+}
+
 func verifCRR() uint32 {
 	if verifConfig("crr100") == 1 {
 		return 100
@@ -34,6 +47,7 @@ func VerifHarness_C12_SaleReturn() {
 	crr := verifCRR()
 	amount := verifBigNN("amount")
 	verifAssume(amount.Cmp(supply) <= 0)
+	verifCap(supply, reserve, amount)
 	r := CalculateSaleReturn(supply, reserve, crr, amount)
 	verifAssert("C12:sale-return>=0", r.Sign() >= 0)
 	verifAssert("C12:sale-return<=reserve", r.Cmp(reserve) <= 0)
@@ -55,6 +69,7 @@ func VerifHarness_C12_PurchaseReturn() {
 	supply, reserve := verifBigPos("supply"), verifBigPos("reserve")
 	crr := verifCRR()
 	deposit := verifBigNN("deposit")
+	verifCap(supply, reserve, deposit)
 	r := CalculatePurchaseReturn(supply, reserve, crr, deposit)
 	verifAssert("C12:purchase-return>=0", r.Sign() >= 0)
 	if deposit.Sign() == 0 {
@@ -72,6 +87,7 @@ func VerifHarness_C12_PurchaseAmount() {
 	supply, reserve := verifBigPos("supply"), verifBigPos("reserve")
 	crr := verifCRR()
 	want := verifBigNN("wantReceive")
+	verifCap(supply, reserve, want)
 	r := CalculatePurchaseAmount(supply, reserve, crr, want)
 	verifAssert("C12:purchase-amount>=0", r.Sign() >= 0)
 	if want.Sign() == 0 {
@@ -91,6 +107,7 @@ func VerifHarness_C12_SaleAmount() {
 	want := verifBigNN("wantReceive")
 	// call-site guard (CheckReserveUnderflow): wantReceive stays below the reserve
 	verifAssume(want.Cmp(reserve) < 0)
+	verifCap(supply, reserve, want)
 	r := CalculateSaleAmount(supply, reserve, crr, want)
 	verifAssert("C12:sale-amount>=0", r.Sign() >= 0)
 	verifAssert("C12:sale-amount<=supply", r.Cmp(supply) <= 0)
@@ -103,4 +120,35 @@ func VerifHarness_C12_SaleAmount() {
 	} else {
 		verifExponentIs("C12:sale-amount-exponent=crr/100", float64(crr)/100)
 	}
+}
+
+// C12 (rounding of integers entering 100-bit floats; FloatMode real-roundint:
+// SetInt rounds to nearest-even at the receiver's precision, every other float
+// operation stays over exact reals).  Two slices of the property in which all
+// intermediate float values are exactly representable, so that this hybrid
+// model coincides with the real arithmetic:
+//
+// SellAllRounded: selling the entire supply returns exactly the reserve, for
+// every supply and reserve up to 10^33 pip (reserves above 2^100 do not fit a
+// 100-bit mantissa).
+func VerifHarness_C12_SellAllRounded() {
+	supply, reserve := verifBigPos("supply"), verifBigPos("reserve")
+	crr := verifCRR()
+	verifCap(supply, reserve)
+	r := CalculateSaleReturn(supply, reserve, crr, new(big.Int).Set(supply))
+	verifAssert("C12:sell-all=reserve", r.Cmp(reserve) == 0)
+}
+
+// NearTotalSaleRounded: supply 10^33 pip (exactly representable), all of it but
+// one pip sold (the amount rounds to the supply, the curve factor is exactly
+// 1): the return must not exceed the reserve, for every reserve up to 10^33.
+func VerifHarness_C12_NearTotalSaleRounded() {
+	supply := new(big.Int).Exp(big.NewInt(10), big.NewInt(33), nil)
+	amount := new(big.Int).Sub(supply, big.NewInt(1))
+	reserve := verifBigPos("reserve")
+	crr := verifCRR()
+	verifCap(reserve)
+	r := CalculateSaleReturn(supply, reserve, crr, amount)
+	verifAssert("C12:sale-return<=reserve", r.Cmp(reserve) <= 0)
+	verifAssert("C12:sale-return>=0", r.Sign() >= 0)
 }
